@@ -671,6 +671,12 @@ class _PairsClassifierMixin(BaseMetricLearner, ClassifierMixin):
       cum_tn_inverted = stable_cumsum(y_ordered[::-1] == -1)
       cum_tn = np.concatenate([[0.], cum_tn_inverted])[::-1]
       cum_accuracy = (cum_tp + cum_tn) / n_samples
+      # a cut-off can only fall between two distinct scores: pairs with tied
+      # scores are accepted or rejected together
+      valid = np.concatenate([[True],
+                              scores_sorted[1:-1] != scores_sorted[2:],
+                              [True]])
+      cum_accuracy[~valid] = -np.inf
       imax = np.argmax(cum_accuracy)
       # we set the threshold to the lowest accepted score
       # note: we are working with negative distances but we want the threshold
@@ -707,7 +713,7 @@ class _PairsClassifierMixin(BaseMetricLearner, ClassifierMixin):
 
     fpr, tpr, thresholds = roc_curve(y_valid,
                                      self.decision_function(pairs_valid),
-                                     pos_label=1)
+                                     pos_label=1, drop_intermediate=False)
     # here the thresholds are decreasing
     fpr, tpr, thresholds = fpr, tpr, thresholds
 
